@@ -5,6 +5,7 @@ termination) of the framework functions belong to C01 (totality)."""
 VERUS_UNITS = {
     "vfw": {"name": "vfw", "template": "contracts/verus/fw.tmpl"},
     "vleaf": {"name": "vleaf", "template": "contracts/verus/fw.tmpl", "defines": ["LEAF"]},
+    "vsem": {"name": "vsem", "template": "contracts/verus/sem.tmpl", "defines": ["SEM"]},
 }
 
 FW = "crates/maybenot/src/framework.rs"
